@@ -86,6 +86,11 @@ func (c05) Plan(tier string, seed int64) []core.Scenario {
 	for i := 0; i < 2*ni; i++ {
 		add(core.Sc("write-fails").WithN("occ", 2+i%4).WithN("map", i%2).WithN("b", 0))
 	}
+	if tier == "thorough" {
+		// a redial that is accepted but whose handshake is never answered: the dialer's own handshake timeout
+		// (45 s) has to end it; costs about a minute, thorough tier only
+		add(core.Sc("handshake-blackhole").WithN("b", 0))
+	}
 	return out
 }
 
@@ -100,6 +105,8 @@ func (p c05) Run(sc core.Scenario) core.Result {
 		p.busyReconnect(sc, r)
 	case "write-fails":
 		p.writeFails(sc, r)
+	case "handshake-blackhole":
+		p.handshakeBlackhole(sc, r)
 	}
 	return r.Result()
 }
@@ -500,4 +507,54 @@ func (c05) writeFails(sc core.Scenario, r *core.R) {
 	r.Obs("write_fail_windows", b2i(formed))
 	r.Sig(core.Log.Signature())
 	r.Sample(map[string]interface{}{"scenario": "request write meets a freshly reset socket", "error_mapping": mapping, "formed": formed, "untagged_error": errStr(ou.Err)})
+}
+
+// handshakeBlackhole: the link is lost; the first redial is accepted but its upgrade request is never
+// answered. The client must get out of that dial by itself and heal once a later dial is answered; a
+// retry-tagged call issued meanwhile must return with its result.
+func (c05) handshakeBlackhole(sc core.Scenario, r *core.R) {
+	env := NewEnv(EnvOpt{})
+	defer env.Shutdown()
+	cl, err := env.NewClient(ClientOpt{Opts: []jsonrpc.Option{jsonrpc.WithReconnectBackoff(5*time.Millisecond, 20*time.Millisecond)}})
+	if err != nil {
+		r.Inconclusive("client: %v", err)
+		return
+	}
+	bg := context.Background()
+	w := Tok("w")
+	if v, err := cl.Echo(bg, w, ""); err != nil || v != svc.Reply(w) {
+		r.Inconclusive("warm-up: %v", err)
+		return
+	}
+	env.Px.SwallowNext(1)
+	env.Px.KillAll(wsproxy.RST)
+	time.Sleep(200 * time.Millisecond)
+	tr := Tok("r")
+	o := Go(tr, func() (string, error) { return cl.EchoR(bg, tr, "") })
+	start := time.Now()
+	bound := 75 * time.Second // the stock dialer gives a handshake 45 s
+	healthy := false
+	for time.Since(start) < bound && !healthy {
+		t := Tok("p")
+		p := Go(t, func() (string, error) { return cl.Echo(bg, t, "") })
+		if p.Wait(5*time.Second) && p.Err == nil && p.Val == svc.Reply(t) {
+			healthy = true
+		} else {
+			time.Sleep(500 * time.Millisecond)
+		}
+	}
+	took := time.Since(start)
+	if !healthy {
+		r.Violate("no-recovery", "the first redial was accepted but its handshake never answered; %v later the client still has not healed although new dials would be answered", took.Round(time.Second))
+	}
+	// the method retry loop backs off geometrically (x1.5 from 100 ms): after an outage of T its next attempt is
+	// due at most about T/2 later
+	if !o.Wait(took/2 + 8*time.Second) {
+		r.Violate("retry-hang", "a retry-tagged call issued while the redial hung in an unanswered handshake has not returned %v after the link was healthy again (outage %v)", (took/2 + 8*time.Second).Round(time.Second), took.Round(time.Second))
+	} else if o.Err != nil || o.Val != svc.Reply(tr) {
+		r.Violate("retry-surfaced-error", "retry-tagged call returned (%q, %v)", o.Val, o.Err)
+	}
+	r.Key("handshake-blackhole", true)
+	r.Obs("healed_after_s", int64(took/time.Second))
+	r.Sample(map[string]interface{}{"scenario": "redial accepted, upgrade never answered", "healed": healthy, "after": took.Round(time.Second).String()})
 }
